@@ -205,11 +205,7 @@ def registry_inputs(name, m, sv, limit=600, funcs=('validate',)):
         pattern = [(i, c) for i, c in enumerate(seeds[0]) if not c.isalnum()]
         plen = sum(c.isalnum() for c in seeds[0])
     if seeds:
-        import time
-        t0 = time.perf_counter()
-        for _ in range(3):
-            e2._accepts(m, seeds[0], {})
-        if (time.perf_counter() - t0) / 3 > 0.0005:
+        if e2.is_slow(m, seeds[0], {}):
             limit = min(limit, 40)      # slow validator (linear registry scan): fewer entries, stated in the evidence
     for dbn in registry_names(m, sv, funcs):
         try:
